@@ -220,11 +220,10 @@ int KSI_TlvElement_serialize(const KSI_TlvElement *element, unsigned char *buf, 
 		dat_len = element->ftlv.dat_len;
 
 		if (buf != NULL) {
-			if (buf_size <= dat_len) {
+			if (buf_size < dat_len) {
 				res = KSI_BUFFER_OVERFLOW;
 				goto cleanup;
 			}
-
 
 			if (dat_len != 0) {
 				memcpy(buf + buf_size - dat_len, element->ptr + element->ftlv.hdr_len, dat_len);
